@@ -17,6 +17,13 @@ P = {
  "C08": dict(tech="runtime monitor: exhaustive hostile-index and awkward-value sweeps over reflection-enumerated methods, list-model verdicts, recursive VerifDump diff and a 17-step observer battery",
              text="Exploration, exhaustive over the stated finite catalogue: every int-taking Stack method x {MinInt..MaxInt boundary set} x lengths 0..4 x index options x capacity (15k calls), every any-taking Stack/Condition method x 55 awkward values, each value in four element roles; "
                   "no panic, failure+unchanged snapshot for non-addressing indices, configuration slot intact and all observers still usable afterwards.", ref="2 C08"),
+ "C09": dict(tech="runtime monitor: reflection-enumerated methods invoked on read-only instances, recursive VerifDump before/after diff, writable-twin measurement",
+             text="Exploration: every exported method of *Stack/*Condition x argument variants x 12 / 48 richly configured random instances (about 20k calls in quick) plus 4k / 200k random call sequences; "
+                  "nothing but the documented exceptions may differ in the raw record, Free must refuse, clearing the flag restores mutability.", ref="2 C09"),
+ "C11": dict(tech="runtime monitor under the Go race detector: before/after VerifDump diff and answer stability for every query; parallel readers with isolated-answer oracle; race-log parsing",
+             text="Exploration: 1.5k / 100k random trees with every judged query (reflection-enumerated, name-classified) issued twice around an answer-clobbering step, and 60 / 2k trees queried by 8-16 goroutines under -race; "
+                  "any race report, answer deviation or snapshot difference is a violation.", ref="2 C11",
+             note="Trusted base: Go toolchain and race detector (no false positives on pure Go, misses races that do not occur in the run), VerifDump, the name-based classification of methods into mutators/queries (an unclassified method makes the run inconclusive)."),
  "C13": dict(tech="runtime monitor: list model with the no-nesting bit over random push-batch/option-switch histories; Condition expression state machine",
              text="Exploration: 20k / 1M random histories of mixed push batches (native, alias, pointer-to-alias Stacks, Conditions, primitives, nil) interleaved with option switches, on all kinds and on Conditions; "
                   "content identity, CanNest and IsNesting checked after every step.", ref="2 C13"),
